@@ -31,6 +31,7 @@ EXPLANATION = (
     "numerical identity damage = 1, damage ordering original <= Haibach <= elementary.")
 EXPLANATION += (' R-C11-6: no write reaches the Woehler curve data handed to the Miner classes. R-C11-7: the damage of a collective does not depend on the order of its members (order-class analysis).')
 EXPLANATION += (" R-C11-8: the Gassner cycles (cycles at the largest amplitude times the lifetime multiple of each Miner rule) combine quantities of one failure-probability level only: cycles()/load() evaluate the curve transformed to 50 %, so a lifetime multiple must not read the object's own SD / ND (interprocedural level typing over the Miner classes).")
+EXPLANATION += (' R-C11-9: the reference cycle number of the Gassner line is evaluated on the Miner-elementary modification of the curve (slope k_1 at every amplitude), because the lifetime multiples are derived with the k_1 line as reference.')
 ASSUMPTIONS = ["builtin min/max on floats; np.dot is the plain sum of products"]
 
 
@@ -43,6 +44,28 @@ def run(ctx):
     ctx.attempt(_r6)
     ctx.attempt(_r7)
     ctx.attempt(_r8)
+    ctx.attempt(_r9)
+
+
+def _r9(ctx):
+    """The lifetime multiples are derived with the k_1 line as reference (full-damage classes contribute n_i s_i^k_1): the
+    reference cycle number at the largest amplitude must therefore be taken from a curve whose slope there is k_1 for EVERY
+    amplitude - the Miner-elementary modification - and not from the curve as given, whose k_2 (default inf) applies as soon
+    as the collective is scaled below the endurance limit."""
+    prog = ctx.prog
+    ctx.rule("R-C11-9", floor=1, what="Gassner reference cycles are evaluated on the k_1 line extended below the endurance limit")
+    base = prog.cls(MINER + ":MinerBase")
+    g = prog.lookup_method(base, "gassner_cycles")
+    cs = [c for c in calls_in(g.node) if isinstance(c.func, ast.Attribute) and c.func.attr in ("cycles", "basquin_cycles")]
+    if len(cs) != 1:
+        raise AnalysisError("gassner_cycles: reference cycles call not found")
+    recv = cs[0].func.value
+    if isinstance(recv, ast.Call) and isinstance(recv.func, ast.Attribute) and is_self_attr(recv.func, "miner_elementary"):
+        ctx.holds(g, cs[0], "reference cycles from self.miner_elementary().cycles(...): slope k_1 at every amplitude")
+    else:
+        ctx.violated(g, cs[0], "the reference cycles of the Gassner line are %s: evaluated on %s, whose slope below the endurance limit "
+                     "is the curve's own k_2 (inf by default), so a collective scaled below SD gets infinite Gassner cycles and the "
+                     "damage sum there is not one" % (norm_text(cs[0]), norm_text(recv)), text="reference curve " + norm_text(recv))
 
 
 LEVEL_DEPENDENT = ("SD", "ND")      # curve parameters that change with the failure probability
@@ -491,6 +514,15 @@ FP = "src/pylife/strength/fatigue.py"
 
 def variants():
     out = []
+
+    def reference_as_given(tree):
+        f = find_func(tree, "MinerBase.gassner_cycles")
+        for c in calls_in(f):
+            if isinstance(c.func, ast.Attribute) and c.func.attr == "cycles" and isinstance(c.func.value, ast.Call):
+                c.func.value = ast.Name(id="self", ctx=ast.Load())
+                return True
+        return False
+    out.append(witness("Gassner reference cycles on the curve as given", MP, reference_as_given, "R-C11-9"))
 
     def native_sd(tree):
         f = find_func(tree, "MinerHaibach.lifetime_multiple")
